@@ -171,6 +171,26 @@ fn ed_ok(vk: &[u8], sig: &[u8], msg: &[u8]) -> bool {
     let mut k = [0u8; 32]; k.copy_from_slice(vk); let mut s = [0u8; 64]; s.copy_from_slice(sig);
     PublicKey::from(k).verify(msg, &Signature::from(s))
 }
+/// expected script-integrity hashes (computed with the validator's own exported functions; a panic there yields none)
+pub fn sdh_expected_of(tx: &AnyTx, utxos: &UTxOs, env: &Environment) -> Vec<Vec<u8>> {
+    match tx {
+        AnyTx::AC(t, Era::Alonzo) => match (&t.transaction_witness_set.plutus_data, &t.transaction_witness_set.redeemer) {
+            (Some(pd), Some(rd)) => { let pd: Vec<alonzo::PlutusData> = pd.iter().map(|x| x.clone().unwrap()).collect();
+                match guard_total(|| p1::alonzo::verif::compute_script_integrity_hash(&pd, rd)) { Out::Ok(h) => vec![h.to_vec()], _ => vec![] } }
+            _ => vec![] },
+        AnyTx::Babbage(t) => match (&t.transaction_witness_set.plutus_data, &t.transaction_witness_set.redeemer) {
+            (Some(pd), Some(rd)) => { let pd: Vec<alonzo::PlutusData> = pd.iter().map(|x| x.clone().unwrap()).collect();
+                match guard_total(|| { let langs = p1::babbage::verif::tx_languages(t, utxos);
+                    p1::babbage::verif::compute_script_integrity_hash(&langs, &pd, rd, &env.prot_magic, &env.network_id, &env.block_slot) }) { Out::Ok((a, b)) => vec![a.to_vec(), b.to_vec()], _ => vec![] } }
+            _ => vec![] },
+        AnyTx::Conway(t) => match &env.prot_params {
+            PP::Conway(pp) => match guard_total(|| { let langs = p1::conway::verif::tx_languages(t, utxos);
+                    let lv = p1::conway::verif::cost_model_for_tx(&langs, pp)?;
+                    Some(conway::ScriptData::build_for(&t.transaction_witness_set, &Some(lv))?.hash()) }) { Out::Ok(Some(h)) => vec![h.to_vec()], _ => vec![] },
+            _ => vec![] },
+        _ => vec![],
+    }
+}
 struct Flags { coll: bool, refs: bool, vk: bool, nat: bool, v1: bool, v2: bool, v3: bool, dat: bool, red: bool, reqs: bool, mint: bool }
 
 pub fn tx_term(tx: &AnyTx, metx: &MultiEraTx, utxos: &UTxOs, env: &Environment, obs: &Obs, cs: &pallas_validate::utils::CertState, counts: Option<(u64, u64, u64)>) -> String {
@@ -219,8 +239,8 @@ pub fn tx_term(tx: &AnyTx, metx: &MultiEraTx, utxos: &UTxOs, env: &Environment, 
         _ => (None, None, None),
     };
     let aux_actual = aux_raw.map(|a| Hasher::<256>::hash(&a).to_vec());
-    // expected script-integrity hashes (computed with the validator's own exported functions; a panic there yields none)
-    let sdh_expected: Vec<Vec<u8>> = match tx {
+    let sdh_expected: Vec<Vec<u8>> = sdh_expected_of(tx, utxos, env);
+    let _unused: Vec<Vec<u8>> = match tx { _ if true => vec![],
         AnyTx::AC(t, Era::Alonzo) => match (&t.transaction_witness_set.plutus_data, &t.transaction_witness_set.redeemer) {
             (Some(pd), Some(rd)) => { let pd: Vec<alonzo::PlutusData> = pd.iter().map(|x| x.clone().unwrap()).collect();
                 match guard_total(|| p1::alonzo::verif::compute_script_integrity_hash(&pd, rd)) { Out::Ok(h) => vec![h.to_vec()], _ => vec![] } }
